@@ -15,7 +15,7 @@ type modelFn func(st *State, fr *Frame, fn *ssa.Function, args []Val, pos token.
 
 type ifaceModelFn func(st *State, fr *Frame, call *ssa.CallCommon, recv Val, args []Val, pos token.Pos) (*Val, bool)
 
-var models map[string]modelFn
+var models = map[string]modelFn{}
 var ifaceModels map[string]ifaceModelFn
 var callOutExtraWrites map[string][]string
 var callOutHooks map[string]func(st *State, fr *Frame, args []Val, res []Val, pos token.Pos)
@@ -28,7 +28,7 @@ const (
 func rv(v Val) (*Val, bool) { return &v, true }
 
 func init() {
-	models = map[string]modelFn{
+	baseModels := map[string]modelFn{
 		"time.Now": func(st *State, fr *Frame, fn *ssa.Function, a []Val, pos token.Pos) (*Val, bool) {
 			return rv(Val{C: []string{st.clockRead()}})
 		},
@@ -144,6 +144,9 @@ func init() {
 			return rv(Val{C: []string{r}})
 		},
 		"sort.Slice": modelSortSlice,
+	}
+	for k, v := range baseModels {
+		models[k] = v
 	}
 	ifaceModels = map[string]ifaceModelFn{
 		"context.Context.Value": func(st *State, fr *Frame, call *ssa.CallCommon, recv Val, args []Val, pos token.Pos) (*Val, bool) {
